@@ -53,10 +53,15 @@ End == /\ Is("End")
                  ELSE IF ~lying /\ ~connected /\ ~failed THEN Note("honest-exchange-failed")
                  ELSE IF ~lying /\ connected /\ wires = 0 THEN Note("no-encrypted-request-seen") ELSE bad
        /\ UNCHANGED <<sc, lying, srv, connected, stored, wires, failed>>
+\* the same client object is connected again, to a server that is conformant by now (Handshake!Again): from here on the
+\* rules of an honest exchange apply - a full exchange (HSDone), agreement, a stored session, a readable first request;
+\* what the abandoned attempt left in the store stays in the picture
+Retry == /\ Is("Retry") /\ lying' = FALSE /\ srv' = NoneKS /\ connected' = FALSE /\ failed' = FALSE /\ wires' = 0
+         /\ UNCHANGED <<sc, stored, bad>>
 Skip == /\ i <= Len(Trace) /\ Ev.e = "Other" /\ i' = i + 1 /\ UNCHANGED <<sc, lying, srv, connected, stored, wires, failed, bad>>
 Finish == /\ i = Len(Trace) + 1 /\ i' = i + 1 /\ ndJsonSerialize(IOEnv.VERIF_OUT, bad)
           /\ UNCHANGED <<sc, lying, srv, connected, stored, wires, failed, bad>>
-Next == Reset \/ HSDone \/ Stored \/ Connected \/ ConnectError \/ ConnectPanic \/ Wire \/ Timeout \/ Dead \/ End \/ Skip \/ Finish
+Next == Reset \/ Retry \/ HSDone \/ Stored \/ Connected \/ ConnectError \/ ConnectPanic \/ Wire \/ Timeout \/ Dead \/ End \/ Skip \/ Finish
 Spec == Init /\ [][Next]_vars
 TraceAccepted == TLCGet("stats").diameter = Len(Trace) + 2
 =============================================================================
